@@ -188,6 +188,15 @@ def check_write_dt(ctx, DT, value, case):
         return
     if not zone_name_verbatim(ctx, text, name, case):
         return
+    ctx.ev()
+    try:
+        stored = DT.convert(value)  # the value as the models take it
+        if stored.utcoffset() is None or dt_us(stored) != want:
+            ctx.violation("value-converted-to-another-instant", f"DateTime().convert({value!r}) -> {stored!r}", case)
+            return
+    except Exception as e:
+        ctx.violation("aware-value-refused", f"DateTime().convert({value!r}) raised {e!r}", case)
+        return
     try:
         back = R.parse_datetime(text)
     except (R.Reject, R.Unspecified) as e:
@@ -222,6 +231,19 @@ def check_write_time(ctx, TM, value, case):
         ctx.violation("time/write/bad-grammar", f"Time().unconvert({value!r}) -> {text!r}", case)
         return
     if not zone_name_verbatim(ctx, text, value.tzname(), case, "time/"):
+        return
+    # the value as the models take it: handed to convert() as a Python time with its own offset, it must come out as the same
+    # time of day in UTC
+    ctx.ev()
+    try:
+        stored = TM.convert(value)
+        us = ((stored.hour * 60 + stored.minute) * 60 + stored.second) * 10**6 + stored.microsecond - (stored.utcoffset() // _US if stored.utcoffset() is not None else 0)
+        d0 = (us - want) % (86400 * 10**6)
+        if stored.utcoffset() is None or min(d0, 86400 * 10**6 - d0) > 0:
+            ctx.violation("time/value-converted-to-another-instant", f"Time().convert({value!r}) -> {stored!r}", case)
+            return
+    except Exception as e:
+        ctx.violation("time/aware-value-refused", f"Time().convert({value!r}) raised {e!r}", case)
         return
     back = R.parse_time(text)
     d = (back - want) % (86400 * 10**6)
@@ -273,6 +295,8 @@ def corruptions(text, kind):
         for junk in ("5-3", "+-", "--5", "5+", "1-2", "-+5", "5 ", "+ 5"):
             out.append((f"{head}[{junk}{mo.group(2)}{mo.group(3)}]", "offset-hours-junk"))
             out.append((f"{head}[{junk}:EST]", "offset-hours-junk"))
+        # no hours at all (the bare SIGN of the broker form '[-:CST]' is the only thing that may stand for them)
+        out += [(f"{head}[]", "offset-hours-missing"), (f"{head}[:EST]", "offset-hours-missing"), (f"{head}[.30]", "offset-hours-missing"), (f"{head}[.30:EST]", "offset-hours-missing")]
         for far in ("+15", "-13", "99", "+24", "-99"):
             out.append((f"{head}[{far}{mo.group(2)}{mo.group(3)}]", "offset-hours-out-of-range"))
         for mins in (".60", ".99", ".75"):
